@@ -334,7 +334,9 @@ class Interp:
             for k in keys:
                 best = -INF
                 for st in states:
-                    u = st.facts.upper(Lin(k, 0), 2)
+                    u = st.facts.ub.get(k)
+                    if u is None:
+                        u = st.facts.upper(Lin(k, 0), 2)
                     best = max(best, u)
                     if best == INF:
                         break
@@ -841,7 +843,9 @@ class Interp:
             best = -INF
             l = Lin(terms, 0)
             for f in abst:
-                u = f.upper(l, 2)
+                u = f.ub.get(terms)
+                if u is None:
+                    u = f.upper(l, 2)
                 if u > best:
                     best = u
                 if best == INF:
